@@ -38,12 +38,15 @@ Definition gen_conv_cell (loc prev dst : nat) (cs : conv_spec) (k p base : nat) 
   let ra := nth k (cv_rel_a cs) [] in
   let rb := nth k (cv_rel_b cs) [] in
   let n0 := 2 ^ cv_depth cs in
-  map (fun g => SAssign loc (base + g)
-                  (gate_gexp (gate_at (cv_gates cs) 0 g k)
-                             (src_ref prev (cv_dims cs) (cv_pad cs) start (nth g ra ([], 0)))
-                             (src_ref prev (cv_dims cs) (cv_pad cs) start (nth g rb ([], 0)))))
-      (seq 0 n0)
-  ++ gen_levels loc (cv_gates cs) k 1 (cv_depth cs) base n0 (base + n0) dst (k * prod (cv_out_dims cs) + p).
+  let di := k * prod (cv_out_dims cs) + p in
+  let leaf g := gate_gexp (gate_at (cv_gates cs) 0 g k)
+                          (src_ref prev (cv_dims cs) (cv_pad cs) start (nth g ra ([], 0)))
+                          (src_ref prev (cv_dims cs) (cv_pad cs) start (nth g rb ([], 0))) in
+  match cv_depth cs with
+  | O => [SAssign dst di (leaf 0)]                 (* a tree of depth 0 is its single gate *)
+  | S _ => map (fun g => SAssign loc (base + g) (leaf g)) (seq 0 n0)
+           ++ gen_levels loc (cv_gates cs) k 1 (cv_depth cs) base n0 (base + n0) dst di
+  end.
 
 Definition gen_conv (loc prev dst : nat) (cs : conv_spec) (base : nat) : list stmt :=
   let P := prod (cv_out_dims cs) in
@@ -126,3 +129,10 @@ Definition gen_net (m : spatial_model) : prog :=
                    | ds => SMemcpy lin (1 + nS) last_size :: gen_layers_ab lin (S lin) ds
                    end
                  else [SMemcpy 1 (1 + nS) last_size]) |}.
+
+(* ---------- well-formedness: what a parsed model guarantees and the correctness theorem assumes *)
+Definition wf_conv (cs : conv_spec) : bool :=
+  forallb (forallb (forallb (fun g => g <? 16))) (cv_gates cs) &&
+  forallb (fun k => forallb (fun g => (snd (nth g (nth k (cv_rel_a cs) []) ([], 0)) <? cv_C cs)
+                                   && (snd (nth g (nth k (cv_rel_b cs) []) ([], 0)) <? cv_C cs))
+                            (seq 0 (2 ^ cv_depth cs))) (seq 0 (cv_K cs)).
